@@ -1333,6 +1333,12 @@ def one_case(ctx, case, label="gen", budget=None):
                         continue
                     if st["op"] in ("logpdf", "factor", "cdf", "valuefor") and fam_of(src) not in ("normal", "naturalNormal"):
                         continue  # densities of gamma / beta are not modelled (oracle only)
+                    if st["op"] == "variance" and isinstance(src, TransformedMessage) and any(canon_tr(t)["t"] == "phi" for t in src.transforms):
+                        with np.errstate(all="ignore"):
+                            mu_v = np.asarray(base_of(src).mean, dtype=float)
+                            sg_v = np.sqrt(np.asarray(base_of(src).variance, dtype=float))
+                        if not np.all(np.abs(mu_v) + 2.0 * sg_v <= 4.5):
+                            continue  # tails the unit interval does not resolve (the code clamps ndtri's argument)
                     got = elem(val, shape, i)
                     want = h2f(mo["v"])
                     if os.environ.get("C17_DBG") and st["op"] == "variance" and isinstance(src, TransformedMessage):
@@ -1633,7 +1639,8 @@ def gen_algebra(rng, want_density):
         push({"op": "natural", "a": a})
         push({"op": "valid", "a": a})
         push({"op": "mean", "a": a})
-        push({"op": "variance", "a": a})
+        if not isinstance(ra, TransformedMessage):
+            push({"op": "variance", "a": a})
         x = point_in_support(rng, ra, None)
         if x is None:
             continue
@@ -1643,6 +1650,8 @@ def gen_algebra(rng, want_density):
                 sg_ = np.sqrt(np.asarray(base_of(ra).variance, dtype=float))
             if not np.all(np.abs(mu_) + 2.0 * sg_ <= 4.5):
                 continue  # the unit interval does not resolve the tails of this message in doubles
+        if isinstance(ra, TransformedMessage):
+            push({"op": "variance", "a": a})  # (first-order variance: Jacobians at the running mean, resolved as above)
         push({"op": "logpdf", "a": a, "x": x})
         if isinstance(ra, TransformedMessage):
             push({"op": "factor", "a": a, "x": x})
